@@ -291,7 +291,7 @@ def check_result(scen, Kd, Gd, active, vals, vecs, pos, k, sparse, ref, log, res
         # first-order perturbation bound for the definite pencil (KG, K) under a relative backward error of 1e-12
         # plus the resolution of the Cayley transform around sigma=1, w'=(mu+1)/(mu-1): d(mu) ~ eps*cond(K)/2
         return 1e-12 * (nG / max(abs(mu), 1e-300) + nK) / ref['lmin'] + \
-            2e-16 * (nK / ref['lmin']) * max(1.0, 1.0 / max(abs(mu), 1e-300))
+            2e-15 * (nK / ref["lmin"]) * max(1.0, 1.0 / max(abs(mu), 1e-300))
 
     def rtol(mu):
         return min(1e-4, max(1e-7, pbound(mu)))
